@@ -1,4 +1,5 @@
 import TemplVerif.Generated.Skeletons
+import TemplVerif.Proofs.Docs
 import TemplVerif.Model.Doc
 import TemplVerif.Proofs.Doc
 /-
@@ -45,6 +46,28 @@ example : WellFormed [[97, 98], [99, 100]] ∧ ordered [[97, 98], [99, 100]] (so
 
 /-- The edit that the unrepaired `isWholeDocument` (`||`) mishandled: replace 0:0–0:2 of "ab\ncd" by "X". -/
 example : text (Doc.apply [[97, 98], [99, 100]] (some ⟨⟨0, 0⟩, ⟨0, 2⟩⟩) [88]) = [88, 10, 99, 100] := by decide
+
+/-! ## Several documents open at once
+
+The server keeps one document per URI (`DocumentContents`, model `Docs`); URIs are compared byte for byte. -/
+
+/-- A message about one document - open, change, close - leaves every other document as it is. -/
+theorem C17_other_documents_untouched (s : Docs.Store) (m : Docs.Msg) (v : Bytes) (h : v ≠ m.uri) :
+    Docs.lookup (Docs.step s m) v = Docs.lookup s v :=
+  Proofs.Docs.step_other s m v h
+
+/-- For ANY session over any number of documents, however interleaved: the server's copy of a document is what the
+    messages about THAT document alone produce (to which `C17_hist` applies). -/
+theorem C17_sessions_independent (ms : List Docs.Msg) (s : Docs.Store) (v : Bytes) :
+    Docs.lookup (Docs.run s ms) v = Docs.lookup (Docs.run s (ms.filter fun m => m.uri == v)) v :=
+  Proofs.Docs.run_filter ms s v
+
+/-- Non-vacuity: two files whose names differ in letter case, edited in turn; closing one leaves the other. -/
+example :
+    let a : Bytes := [67, 97, 114, 100]   -- "Card"
+    let b : Bytes := [99, 97, 114, 100]   -- "card"
+    let s := Docs.run [] [.didOpen a [120], .didOpen b [121], .didChange a [(none, [122])], .didClose b]
+    Docs.lookup s a = some [[122]] ∧ Docs.lookup s b = none := by decide
 
 -- BEGIN transcription pins (written by tools/mkpins.py)
 /-- T1, transcription pins: the control structure and calls (extract/skeleton.go) of the functions whose models
